@@ -11,7 +11,11 @@
    token list of plain text, special sequences, undeclared control words,
    comments, braces and nested pass-through macros (C07_expander_total_on_class:
    the fuel is bounded by a weight of the token list (a macro weighs 5 plus
-   the length of its body, any other token 1), the result is Ok).  Not proved: the same two claims
+   the length of its body, any other token 1), the result is Ok); end to end
+   for documents of the class in single-language mode
+   (C07_tex2txt_total_on_class): with the packages loaded and the fuel above
+   the weight of the scan, tex2txt() returns a result, whatever the
+   replacement list and the other options.  Not proved: the same two claims
    for the expander on arbitrary input
    (coq/model/{Parser,Expand,Math,Exec}.v); there the check relies on the
    correspondence run (outcome class of model and implementation on the
@@ -19,7 +23,7 @@
 From Coq Require Import String.
 From YV Require Import PyBase CharTables Token Utils Scanner Rpal PState Parser Exec Ml
                        Replace ReplaceProofs RpalProofs TotalProofs ExecPlain ExecUnk ExecArgs
-                       ClassDecide Catalogue.
+                       ClassDecide Catalogue Tex2txt ClassRange.
 Open Scope Z_scope.
 
 (* (1) scanner: a pure function of the text; the fuel scan() passes is
@@ -89,3 +93,22 @@ Example C07_nonvacuous :
               [TextT 0 [97; 10]%N; ActionT 2; SpaceT 2 [10]%N; TextT 3 [98]%N] = Ok r
             /\ map txt r = [[97; 10]; [98]]%N.
 Proof. eexists. split; reflexivity. Qed.
+
+(* (7) end to end, single-language mode: with the parser set up (packages
+   loaded without error) and enough fuel, tex2txt() returns a result for every
+   document of the class, whatever replacement list and options *)
+Theorem C07_tex2txt_total_on_class :
+  forall is_word files lang simple mods latex repl unkn thresh fuel st,
+  init_parser py_tables (fun f => assoc f files) fuel (init_state py_tables lang false simple true)
+              (t_builtin py_tables) mods = Ok st ->
+  doc_in_class py_tables (upd_unknowns (upd_extracted st []) []) latex = true ->
+  (mu (macros st) (fst (Scanner.scan (t_scan py_tables) latex)) < fuel)%nat ->
+  exists out,
+    run_tex2txt py_tables is_word files lang false simple mods [] latex [] repl unkn thresh fuel
+    = Ok out.
+Proof.
+  exact (fun is_word files lang simple mods latex repl unkn thresh fuel st =>
+           tex2txt_class_total py_tables is_word files lang simple mods latex repl unkn thresh fuel st
+                               (eq_refl true) (fun c => eq_refl) (conj eq_refl eq_refl)).
+Qed.
+Print Assumptions C07_tex2txt_total_on_class.
